@@ -5,6 +5,7 @@ import (
 	"go/token"
 	"go/types"
 	"math/big"
+	"strings"
 
 	"golang.org/x/tools/go/ssa"
 )
@@ -72,7 +73,7 @@ func (fr *Frame) instr(ins ssa.Instruction, st *State, g *Term) *Term {
 			s := fr.term(x.X)
 			ng := fr.mayPanicIf(g, mk(SBool, fmt.Sprintf("(or (< %s 0) (>= %s (s.len %s)))", idx.S, idx.S, s.S)), st, "index", x.Pos(), "index out of range")
 			es := c.sortOf(xt.Elem())
-			fr.vals[x] = Val{Loc: &Loc{Kind: LCell, Name: c.elemName(es), Idx: []*Term{mk(SInt, "(s.arr "+s.S+")"), mk(SInt, fmt.Sprintf("(+ (s.off %s) %s)", s.S, idx.S))}, Elem: xt.Elem()}}
+			fr.vals[x] = Val{Loc: &Loc{Kind: LCell, Name: c.elemName(es), Idx: []*Term{mk(SInt, "(s.arr "+s.S+")"), mk(SInt, fmt.Sprintf("(sidx %s %s)", s.S, idx.S))}, Elem: xt.Elem()}}
 			return ng
 		case *types.Pointer:
 			arr := xt.Elem().Underlying().(*types.Array)
@@ -196,9 +197,9 @@ func (fr *Frame) instr(ins ssa.Instruction, st *State, g *Term) *Term {
 		r := c.allocRef(st, g, "mkmap."+x.Name())
 		mt := x.Type().Underlying().(*types.Map)
 		dn, vn, cn := c.mapNames(mt)
-		ks := c.sortOf(mt.Key())
-		c.heapSet(st, dn, tStore(c.heapGet(st, dn), r, mk(ArrSort(ks, SBool), fmt.Sprintf("((as const %s) false)", ArrSort(ks, SBool)))))
-		c.heapSet(st, cn, tStore(c.heapGet(st, cn), r, intLit(0)))
+		ks := c.mapKeySort(mt)
+		c.heapSet(st, dn, c.sto(c.heapGet(st, dn), r, mk(ArrSort(ks, SBool), fmt.Sprintf("((as const %s) false)", ArrSort(ks, SBool)))))
+		c.heapSet(st, cn, c.sto(c.heapGet(st, cn), r, intLit(0)))
 		_ = vn
 		fr.vals[x] = tv(r)
 		return nil
@@ -207,28 +208,29 @@ func (fr *Frame) instr(ins ssa.Instruction, st *State, g *Term) *Term {
 		mt := x.Map.Type().Underlying().(*types.Map)
 		ng := fr.mayPanicIf(g, tEq(m, intLit(0)), st, "nilmap", x.Pos(), "assignment to entry in nil map")
 		dn, vn, cn := c.mapNames(mt)
-		k := fr.term(x.Key)
+		k := c.mapKey(mt, fr.term(x.Key))
 		v := fr.term(x.Value)
-		dom := tSelect(c.heapGet(st, dn), m)
+		dom := c.sel(c.heapGet(st, dn), m)
 		was := tSelect(dom, k)
-		cnt := tSelect(c.heapGet(st, cn), m)
-		c.heapSet(st, cn, tStore(c.heapGet(st, cn), m, tIte(was, cnt, tAdd(cnt, intLit(1)))))
-		c.heapSet(st, dn, tStore(c.heapGet(st, dn), m, tStore(dom, k, tTrue)))
-		vals := tSelect(c.heapGet(st, vn), m)
-		c.heapSet(st, vn, tStore(c.heapGet(st, vn), m, tStore(vals, k, v)))
+		cnt := c.sel(c.heapGet(st, cn), m)
+		c.heapSet(st, cn, c.sto(c.heapGet(st, cn), m, tIte(was, cnt, tAdd(cnt, intLit(1)))))
+		c.heapSet(st, dn, c.sto(c.heapGet(st, dn), m, tStore(dom, k, tTrue)))
+		vals := c.sel(c.heapGet(st, vn), m)
+		c.heapSet(st, vn, c.sto(c.heapGet(st, vn), m, tStore(vals, k, v)))
 		return ng
 	case *ssa.Lookup:
 		if mt, ok := x.X.Type().Underlying().(*types.Map); ok {
 			m := fr.term(x.X)
 			dn, vn, _ := c.mapNames(mt)
-			k := fr.term(x.Index)
+			k := c.mapKey(mt, fr.term(x.Index))
 			// reading a nil map yields the zero value
-			dom := tSelect(c.heapGet(st, dn), m)
+			dom := c.sel(c.heapGet(st, dn), m)
 			present := tAnd(tNot(tEq(m, intLit(0))), tSelect(dom, k))
-			raw := tSelect(tSelect(c.heapGet(st, vn), m), k)
+			raw := tSelect(c.sel(c.heapGet(st, vn), m), k)
 			val := c.define(x.Name(), tIte(present, raw, c.zeroTerm(mt.Elem())))
 			c.assumeG(g, c.typeConstraint(mt.Elem(), val))
-			c.assumeAllocated(st, g, mt.Elem(), val)
+			c.assumeLoadedRef(st, vn, mt.Elem(), val)
+			c.bornNow(val)
 			if x.CommaOk {
 				fr.vals[x] = Val{Tuple: []Val{tv(val), tv(c.define(x.Name()+".ok", present))}}
 			} else {
@@ -286,8 +288,42 @@ func orG(a, b *Term) *Term {
 
 func isBigIntValueType(t types.Type) bool { return isBigInt(t) || isBigFloat(t) }
 
+// mapKeySort: keys of array sort ([32]byte public keys, addresses...) are wrapped into an uninterpreted key sort,
+// because cvc5 rejects arrays indexed by arrays. key!S is a function (equal arrays give equal keys); it is not
+// assumed injective, which only makes lookups coarser (sound).
+func (c *Ctx) mapKeySort(mt *types.Map) Sort {
+	ks := c.sortOf(mt.Key())
+	if strings.HasPrefix(string(ks), "(Array ") {
+		name := "Key." + sanitize(string(ks))
+		if !c.dtDecls[name] {
+			c.dtDecls[name] = true
+			c.sortDecls = append(c.sortDecls, fmt.Sprintf("(declare-sort %s 0)", name))
+		}
+		return Sort(name)
+	}
+	return ks
+}
+
+// mapKey converts a Go key value to the index used in the map arrays.
+func (c *Ctx) mapKey(mt *types.Map, k *Term) *Term {
+	ks := c.sortOf(mt.Key())
+	if strings.HasPrefix(string(ks), "(Array ") {
+		kk := c.mapKeySort(mt)
+		fn := "key!" + sanitize(string(ks))
+		if _, ok := c.declared[fn]; !ok {
+			c.declareFun(fn, []Sort{ks}, kk)
+			// injective: distinct Go keys are distinct map keys (given through an inverse, instantiated per application)
+			un := "unkey!" + sanitize(string(ks))
+			c.declareFun(un, []Sort{kk}, ks)
+			c.asserts = append(c.asserts, &Assertion{Seq: 0, Text: fmt.Sprintf("(forall ((ka %s)) (! (= (%s (%s ka)) ka) :pattern ((%s ka))))", ks, un, fn, fn)})
+		}
+		return app(kk, fn, k)
+	}
+	return k
+}
+
 func (c *Ctx) mapNames(mt *types.Map) (dom, val, card string) {
-	ks, vs := c.sortOf(mt.Key()), c.sortOf(mt.Elem())
+	ks, vs := c.mapKeySort(mt), c.sortOf(mt.Elem())
 	suffix := sanitize(string(ks)) + "!" + sanitize(string(vs))
 	dom = c.heapName("mapdom!"+suffix, ArrSort(SInt, ArrSort(ks, SBool)))
 	val = c.heapName("mapval!"+suffix, ArrSort(SInt, ArrSort(ks, vs)))
@@ -437,6 +473,10 @@ func (fr *Frame) binop(x *ssa.BinOp, st *State, g *Term) *Term {
 }
 
 func (c *Ctx) goEq(t types.Type, a, b *Term) *Term {
+	if a.Sort == SSlice && b.Sort == SSlice {
+		// slices are only comparable with nil: nil-ness is decided by the backing array reference
+		return tEq(mk(SInt, "(s.arr "+a.S+")"), mk(SInt, "(s.arr "+b.S+")"))
+	}
 	return tEq(a, b)
 }
 
@@ -747,7 +787,7 @@ func (fr *Frame) rangeInit(x *ssa.Range, st *State, g *Term) *Term {
 		return nil
 	}
 	// ghost: visited set of this iterator, kept in a heap name so that loops havoc it and invariants can mention it
-	ks := c.sortOf(mt.Key())
+	ks := c.mapKeySort(mt)
 	name := c.heapName(fmt.Sprintf("iter!%s!%s", fr.id, x.Name()), ArrSort(ks, SBool))
 	c.heapSet(st, name, mk(ArrSort(ks, SBool), fmt.Sprintf("((as const %s) false)", ArrSort(ks, SBool))))
 	fr.vals[x] = tv(fr.term(x.X))
@@ -767,22 +807,24 @@ func (fr *Frame) rangeNext(x *ssa.Next, st *State, g *Term) *Term {
 		return nil
 	}
 	dn, vn, _ := c.mapNames(rs.mt)
-	ks := c.sortOf(rs.mt.Key())
+	ks := c.mapKeySort(rs.mt)
 	dom := tSelect(c.heapGet(st, dn), rs.mapRef)
 	visited := c.heapGet(st, rs.name)
 	ok := c.fresh(x.Name()+".ok", SBool)
-	k := c.fresh(x.Name()+".k", ks)
+	goK := c.fresh(x.Name()+".k", c.sortOf(rs.mt.Key()))
+	k := c.mapKey(rs.mt, goK)
 	// ok  ==> k in dom, k not visited ; !ok ==> every key of dom is visited
 	c.assumeG(g, mk(SBool, fmt.Sprintf("(=> %s (and (select %s %s) (not (select %s %s))))", ok.S, dom.S, k.S, visited.S, k.S)))
 	q := c.fresh("qk", ks) // used via explicit quantifier below
 	_ = q
 	c.assumeG(g, mk(SBool, fmt.Sprintf("(=> (not %s) (forall ((qk %s)) (=> (select %s qk) (select %s qk))))", ok.S, ks, dom.S, visited.S)))
 	c.assumeG(g, mk(SBool, fmt.Sprintf("(=> (= %s 0) (not %s))", rs.mapRef.S, ok.S)))
-	c.assumeG(g, c.typeConstraint(rs.mt.Key(), k))
+	c.assumeG(g, c.typeConstraint(rs.mt.Key(), goK))
 	v := c.define(x.Name()+".v", tSelect(tSelect(c.heapGet(st, vn), rs.mapRef), k))
 	c.assumeG(tAnd(g, ok), c.typeConstraint(rs.mt.Elem(), v))
-	c.assumeAllocated(st, tAnd(g, ok), rs.mt.Elem(), v)
+	c.assumeLoadedRef(st, vn, rs.mt.Elem(), v)
+	c.bornNow(v)
 	c.heapSet(st, rs.name, tIte(ok, tStore(visited, k, tTrue), visited))
-	fr.vals[x] = Val{Tuple: []Val{tv(ok), tv(k), tv(v)}}
+	fr.vals[x] = Val{Tuple: []Val{tv(ok), tv(goK), tv(v)}}
 	return nil
 }
